@@ -123,7 +123,7 @@ class Runner:
         self.setupfail = {}     # config -> rc
         self.cfg_ok = {}        # config -> count of passes
         self.cfg_n0 = set()     # configs whose N=0 case passed
-        self.stat = {'n0_ok': 0, 'below_short_block_ok': 0, 'mixed_blocks_ok': 0, 'short_after_long_ok': 0, 'mixed_blocks_44k_impulse_ok': 0, 'managed_ok': 0,
+        self.stat = {'n0_ok': 0, 'below_short_block_ok': 0, 'mixed_blocks_ok': 0, 'short_after_long_ok': 0, 'mixed_blocks_44k_impulse_ok': 0, 'managed_ok': 0, 'hardmax_ok': 0, 'hardmax_reservoir_full_ok': 0, 'hardmax_reservoir_full_packets': 0,
                      'multi_audio_page_natural_ok': 0, 'packets': 0, 'max_packets': 0}
         self.ch_ok = {}
         self.bs_seen = {}
@@ -209,12 +209,57 @@ class Runner:
                 s['mixed_blocks_44k_impulse_ok'] += 1
         if m['mode'][0] == 'm':
             s['managed_ok'] += 1
+        if m['group'].startswith('hardmax'):
+            s['hardmax_ok'] += 1
+            rf = int(f.get('rfull', 0))
+            if rf > 0:
+                s['hardmax_reservoir_full_ok'] += 1
+                s['hardmax_reservoir_full_packets'] += rf
         if m['lay'][0] == 'n' and pg > 3:
             s['multi_audio_page_natural_ok'] += 1
         if n > 0 and bs1:
             self.sigs.add((cfg, n % (bs1 // 4), m['cclass'], m['sig'][:3]))
         if len(self.samples) < 12 and (chk.cov['evaluations'] % 9973 == 1):
             self.samples.append({'case': line, 'result': r})
+
+
+def hardmax_cases(tier):
+    """Hard bitrate ceiling well below what the quality wants, short reservoir, dense input: the regime in which vorbis_bitrate_addblock has to
+    pick smaller packet blobs and finally truncate frames (seed C04r3-1 escaped without it).  Modes: h<q>,<max kbps>,<reservoir bits>,<bias> =
+    vorbis_encode_setup_vbr + OV_ECTL_RATEMANAGE2_SET (hard max only; reservoir 0 = the library default of 2 s) + setup_init, and
+    m<max>,-1,-1 = vorbis_encode_init with a maximum only.  Full product of the listed domains."""
+    q = tier == 'quick'
+    it = []
+    g = 'hardmax'
+    for rate in (8000, 22050, 44100):
+        for ch in (1, 2):
+            maxes = [24, 40, 64] + ([8, 12, 16] if rate == 8000 else [])      # at 8 kHz only the low ceilings bite
+            for qual in ((0.1,) if q else (0.1, 0.4)):
+                for mx in maxes:
+                    for rb in ((1000, 4000, 0) if q else (128, 1000, 4000, 16000, 0)):
+                        for bias in ((0, 0.5, 1) if q else (0, 0.1, 0.5, 1)):
+                            mode = f'h{qual},{mx},{rb},{bias}'
+                            it.append(case(rate, ch, mode, 0, 'u1024', 'fsn', 'nf3', g))
+                            for sig, chunk in (('fsn', 'u1024'), ('mtone', 'u777')):
+                                for n in (3001, 12001, 12288, 40001):
+                                    it.append(case(rate, ch, mode, n, chunk, sig, 'nf3' if n == 3001 else 'n', g))
+                            if rb == 1000 and bias == 1:        # reservoir full from the first frame: the smallest N as well
+                                for n in (1, 2, 255, 256, 257, 1023, 1024, 1025):
+                                    it.append(case(rate, ch, mode, n, 'u1024', 'fsn', 'nf3', g))
+            for mx in maxes:
+                for sig in ('fsn', 'mtone'):
+                    for n in (0, 3001, 12001, 40001):
+                        it.append(case(rate, ch, f'm{mx * 1000},-1,-1', n, 'u1024', sig, 'n', g))
+    if not q:
+        # the three configurations of the seed's demonstration, at its lengths, and every N in a window for two configurations
+        for rate, ch, mode, n, chunk in ((44100, 2, 'h0.1,40,8000,0.1', 200000, 'u1024'), (44100, 1, 'h0.2,24,4000,0.1', 150001, 'u777'), (44100, 2, 'h0.4,64,16000,0.1', 120000, 'u4096')):
+            for sig in ('fsn', 'mtone'):
+                it.append(case(rate, ch, mode, n, chunk, sig, 'n', g))
+                it.append(case(rate, ch, mode, 100001, chunk, sig, 'n', g))
+        for rate, ch, mode in ((44100, 2, 'h0.1,24,1000,0.1'), (22050, 2, 'h0.1,40,4000,0.1')):
+            for n in range(11800, 12400):
+                it.append(case(rate, ch, mode, n, 'u1024', 'fsn', 'n', g))
+    return it
 
 
 def plan(tier, probe_bs, reduced={}):
@@ -242,6 +287,7 @@ def plan(tier, probe_bs, reduced={}):
             if tier != 'quick':
                 it.append(case(rate, ch, mode, n, 'u7', 'sine', 'n', 'boundary'))
     G.append(('boundary', it))
+    G.append(('hardmax', hardmax_cases(tier)))
     # ---- full N sweeps, a few chunkings (both tiers)
     for name, (cfg, combos) in QCOMBOS.items():
         G.append((name, sweep(name, *cfg, NMAX[cfg], combos)))
@@ -306,7 +352,7 @@ def run(tier):
     exe = vlib.harness('plain', HARNESS)
     t0 = time.time()
     # internal deadline; C04_DEADLINE_S overrides it (only to measure a complete run on an overloaded machine)
-    deadline = t0 + float(os.environ.get('C04_DEADLINE_S') or (170 if tier == 'quick' else 21 * 60))
+    deadline = t0 + float(os.environ.get('C04_DEADLINE_S') or (225 if tier == 'quick' else 21 * 60))
     R = Runner(chk, exe, deadline)
     # phase 1: probe every configuration with N=0 (this is also the N=0 member of every configuration)
     rates = RATES_Q if tier == 'quick' else RATES_T
@@ -343,7 +389,7 @@ def run(tier):
                 what += ':' + parts[2]
         else:
             what = st.lower()   # died / timeout / nooutput
-        key = f"{what}:bs{bs0}_{bs1}:{ {'m': 'managed', 'q': 'vbr', 'd': 'vbr_direct'}[m['mode'][0]] }:{nclass(n, bs0, bs1) if bs0 else 'N?'}"
+        key = f"{what}:bs{bs0}_{bs1}:{ {'m': 'managed', 'q': 'vbr', 'd': 'vbr_direct', 'h': 'vbr_hardmax'}[m['mode'][0]] }:{nclass(n, bs0, bs1) if bs0 else 'N?'}"
         chk.violation(key, f"{m['rate']} Hz {m['ch']} ch {m['mode']} N={n} chunking {m['chunk']} signal {m['sig']} layouts {m['lay']}: expected {n} samples/granule; executor says: {r[:300]}", {'case': line})
     sweeps_complete = {k: v for k, v in R.groups.items() if k.startswith('sweep_')}
     chk.cov.update({
@@ -360,7 +406,7 @@ def run(tier):
         'stats': R.stat,
         'rule': 'ENUM over (rate, channels, mode, N, piece schedule, signal, page layouts): every N in 0..Nmax for the sweep configs (8 kHz mono 512/512 Nmax 5200, 16 kHz mono 512/1024 Nmax 4200, '
                 '44.1 kHz mono+stereo 256/2048 Nmax 9300; thorough adds 1024/1024, 512/4096, managed and 5.1 sweeps and all chunkings x 5 signals), every 2-part split (a,N-a) for the listed N, '
-                'one-sample pieces, boundary sets of N around multiples of short/4 and long/4 for every (rate x {1,2,6} ch x VBR/managed/direct mode) configuration that sets up plus other channel counts (3..255) and the extremes of the rate range (4000..200000 Hz); each case: real encoder -> libogg pages in memory '
+                'one-sample pieces, hard-maximum encodes (setup_vbr q + OV_ECTL_RATEMANAGE2_SET max {24,40,64 kbps; 8,12,16 at 8 kHz} x reservoir bits x bias, and vorbis_encode_init max-only, rates {8000,22050,44100} x {1,2} ch, full-scale noise / loud 7-tone mix, N in {3001,12001,12288,40001,...}), boundary sets of N around multiples of short/4 and long/4 for every (rate x {1,2,6} ch x VBR/managed/direct mode) configuration that sets up plus other channel counts (3..255) and the extremes of the rate range (4000..200000 Hz); each case: real encoder -> libogg pages in memory '
                 '(layouts n=pageout, f=flush per packet, 3=flush per 3 packets) -> packet-API decode, vorbisfile seekable, vorbisfile streaming; oracle = construction (N). '
                 'distinct_nontrivial = number of distinct (config, N mod long/4, chunking class, signal kind) among passing cases with N>0',
         'samples': R.samples,
@@ -371,6 +417,8 @@ def run(tier):
         '"starts at zero" is judged as: ov_pcm_tell()==0 after open, and at every packet that carries a granule position the number of samples decoded so far equals that granule position',
         'configurations that vorbis_encode_init* rejects are outside the quantifier and are skipped (counted in configs_rejected_by_encoder_setup)',
         'alignment/quality of the decoded audio is C06; this check only counts samples and reads positions',
+        'an audio packet of zero bytes is reported under its own predicate enc_empty_audio_packet: libvorbis decoders reject it (OV_ENOTAUDIO), so it always also loses samples',
+        'the executor reads the hard-limit reservoir fill from codec_internal.h for the vacuity statistics only (rfull); it never enters a verdict',
     ]
     s = R.stat
     chk.guard(not R.badcase, 'executor accepted every generated case line (%s)' % R.badcase[:2])
@@ -378,6 +426,9 @@ def run(tier):
     # coverage facts are demanded of the groups that ran to completion (a deadline cut is reported as exhaustive:false, not as a broken check)
     if done('probe_N0'):
         chk.guard(set(R.cfg_ok) <= R.cfg_n0 and len(R.cfg_n0) >= 20, 'N=0 passed for every configuration that sets up')
+    if done('hardmax'):
+        chk.guard(s['hardmax_ok'] >= 1000, 'hard-maximum (RATEMANAGE2 / max-only) encodes covered')
+        chk.guard(s['hardmax_reservoir_full_ok'] >= 300, 'hard-maximum reservoir driven to full (blob down-selection / frame truncation regime) in at least 300 passing cases')
     if done('boundary'):
         chk.guard(s['below_short_block_ok'] >= 100, '0<N<one short block covered')
         chk.guard(s['managed_ok'] >= 100, 'bitrate-managed encodes covered')
